@@ -64,6 +64,7 @@ type AimInfo struct {
 	cg     *callGraph
 	storeT map[string]bool
 	taken  []*ssa.Function // module functions used as values
+	takenSorted bool
 	scans  map[*ssa.Function]*aimScan
 	memo   map[*ssa.Function]*aimMod
 	useMemo map[*ssa.Function]map[aimKey]bool
@@ -624,9 +625,9 @@ func (f *Frame) aimHavoc(st *PState, mod *aimMod) {
 func (ex *Exec) keepPrivateCells(before, after *PState) {
 	frames := append([]*Frame{}, ex.frames...)
 	for _, fr := range frames {
-		for val, v := range fr.vals {
-			al, ok := val.(*ssa.Alloc)
-			if !ok || v.LV != nil || v.T == "" {
+		for _, al := range sortedAllocs(fr.vals) {
+			v := fr.vals[al]
+			if v.LV != nil || v.T == "" {
 				continue
 			}
 			if addrEscapes(al) {
@@ -1202,6 +1203,12 @@ func (ai *AimInfo) addrTakenBySig(sig *types.Signature) []*ssa.Function {
 				}
 			}
 		}
+	}
+	if !ai.takenSorted {
+		// package members are a map: fix the order (it decides in which order struct sorts are first registered, hence
+		// the text of every query)
+		sort.Slice(ai.taken, func(i, j int) bool { return ai.taken[i].String() < ai.taken[j].String() })
+		ai.takenSorted = true
 	}
 	var out []*ssa.Function
 	for _, f := range ai.taken {
